@@ -138,8 +138,7 @@ def script_of(nc, cmds):
         docs = []
         t = r.cmd(c, docs)
         lines.append(with_docs(t, docs) + 'echo "S$?" >>"$C10_OUT"\n')
-    # the loop guards are set (empty) from the start so that the scripts also run under `set -u`; `${k-}` is not used because
-    # brush mangles a braced expansion that follows a here-document operator on the same line (finding C10-13)
+    # the loop guards are set (empty) from the start so that the scripts also run under `set -u`
     guards = "".join("k%d= " % i for i in range(1, r.nvar + 1))
     return ("set -C\n" if nc else "") + (guards.rstrip() + "\n" if guards else "") + "".join(r.defs) + "".join(lines)
 
@@ -665,20 +664,30 @@ FAMILY = [
     "for i in 1 2 3 4 5 6; do $P p$i 3>a 4<ex 2>&1 >b <<<H$i; { echo B$i; } 5>>c >&5; done\n$P p9\n",
     "exec 3>a 4<ex\nfor i in 1 2 3; do echo B$i >&3; f() { $P p$i 3>&- 5<&4; }; f; ( exec 4<&- 3>b; $P q$i ); done\n$P p9\nexec 3>&- 4<&-\n$P p0\n",
     "exec 3>a\n$P p1 3>&-\necho B1 3>&- >&3\necho \"S$?\" >&2\nf() { $P p2; }; f 3>&-\n$P p3 4>&3- \n$P p4\n",
-    # finding C10-13: an expansion with braces / parentheses after a here-document operator on the same line
-    ("f=a\n$P p1 <<E1 >\"${f}\"\nH6\nE1\n$P p2\n", "heredoc_operator_line_scrambled_by_nested_construct"),
-    ("$P p1 <<E1 3>$(echo b)\nH6\nE1\n$P p2\n", "heredoc_operator_line_scrambled_by_nested_construct"),
+    # repaired by ac59621 (was finding C10-13): a word holding `${…}`, `$(…)`, `$((…))` after a here-document operator on the same
+    # line is scanned on its own — positive cases, brush must equal bash
+    "f=a\n$P p1 <<E1 >\"${f}\"\nH6\nE1\n$P p2\n",
+    "$P p1 <<E1 3>$(echo b)\nH6\nE1\n$P p2\n",
+    "x=B\necho ${x}1 <<E1 $((1+1)) \"$(echo B3)\" ${x:-$(echo B4)} >a `echo B5`\nH6\nE1\n$P p1 <a\n",
+    "$P p1 <<E1 | $P \"$(echo p2)\" 3<<E2 4<<<$(echo H4)\nH1\nE1\nH2\nE2\n",
+    "$P p1 <<E4 3< <(echo H3) 4>\"${undefined:-b}\"\nH4\nE4\n$P p2\n",
+    # what is left of C10-13: inside `$( )`, a here-document operator followed on the same line by a closing parenthesis
+    ("v=$( ( $P p1 <<E0; echo B2 ) >a\nH3\nE0\n)\necho \"S$v\"\n$P p2\n", "heredoc_operator_line_scrambled_by_nested_construct"),
+    ("v=$( (echo B1 <<E5) >a\nH5\nE5\n)\necho \"S$v\"\n$P p2\n", "heredoc_operator_line_scrambled_by_nested_construct"),
+    # … and a process substitution holding a here-document of its own after a here-document operator on the same line
+    ("$P p1 <<E4 3< <(cat <<E5\nH5\nE5\n)\nH4\nE4\n$P p2\n", "heredoc_operator_line_scrambled_by_nested_construct"),
 ]
 
 
-_HD_THEN_MORE = re.compile(r"(?<!<)<<-?(?!<)[^ \t\n;)]+(?=[ \t;)])[ \t]*[^ \t\n]")
+_HD_OP = re.compile(r"(?<!<)<<-?(?!<)")
 
 
 def heredoc_before_paren(script):
-    """a line holding a here-document operator and more text after the delimiter word: inside `$( )` brush queues the tokens
-    that follow the operator on that line and appends the characters that end nested constructs at once, so the two get out of
-    order (finding C10-13)"""
-    return any(_HD_THEN_MORE.search(l) for l in script.split("\n"))
+    """what is left of finding C10-13 after ac59621: inside `$( )`, a line holding a here-document operator and, later on the
+    same line, a closing parenthesis — the `)` of the nested level is appended to the text of the substitution at once while the
+    tokens before it are still queued behind the here-document, so they end up after it.  Nothing else on such a line is excused:
+    words with `${…}`, `$(…)`, `$((…))` after the operator, `;`, `}`, `fi`, further redirections must all agree with bash."""
+    return any(")" in l[m.end():] for l in script.split("\n") for m in _HD_OP.finditer(l))
 
 
 def sweep(ctx, infos):
